@@ -39,7 +39,7 @@ COMPONENTS = {
     "stub_or_harness": ["history generator", "spec/value generators", "reference spec parser (which members are public)"],
 }
 FAULT_KINDS = ["sibling_instance_created", "setattr_attempt", "delattr_attempt", "source_list_mutation", "returned_value_mutation_attempt"]
-PROBES = ["serialize_into_shared_writer", "twin_instance_compared", "reincarnated_instance_compared", "serialize_into_nonempty_writer", "unserializable_instance_observed", "invalid_instance", "live_sequence_view_argument", "packet_write_method", "serialize_into_sanitising_writer", "array_element_mutation_attempt", "array_of_structs", "optional_array_present", "blob_on_deserialized_instance", "case_data_mutated_through_parent",
+PROBES = ["snapshot_unavailable", "member_unreadable_before_assignment", "serialize_into_shared_writer", "twin_instance_compared", "reincarnated_instance_compared", "serialize_into_nonempty_writer", "unserializable_instance_observed", "invalid_instance", "live_sequence_view_argument", "packet_write_method", "serialize_into_sanitising_writer", "array_element_mutation_attempt", "array_of_structs", "optional_array_present", "blob_on_deserialized_instance", "case_data_mutated_through_parent",
           "one_shot_iterator_argument", "nested_instance_setattr", "byte_size_setattr", "first_serialize_failed_skipped",
           "tree_rejected", "returned_value_was_mutable"]
 
@@ -315,6 +315,7 @@ def run_history(inst, ops, res, tr, case, shape):
         snap0 = inst.snapshot()
     except Exception:  # noqa
         snap0 = None
+        res.count("probe.snapshot_unavailable")
     for step, op in enumerate(ops):
         res.evaluations += 1
         name = op[0]
@@ -396,8 +397,13 @@ def run_history(inst, ops, res, tr, case, shape):
             if attr == "byte_size":
                 res.count("probe.byte_size_setattr")
             try:
+                current = getattr(target, attr)
+            except Exception:  # noqa  (a member that cannot even be read must still refuse assignment)
+                current = 0
+                res.count("probe.member_unreadable_before_assignment")
+            try:
                 if name == "setattr":
-                    setattr(target, attr, other_value(getattr(target, attr)))
+                    setattr(target, attr, other_value(current))
                 else:
                     delattr(target, attr)
                 raised = None
